@@ -5869,6 +5869,43 @@ void psX509FreeDNStruct(x509DNattributes_t *dn, psPool_t *allocPool)
 
 /******************************************************************************/
 /*
+    PS_TRUE only if a and b are the same certificate: same signature algorithm,
+    same TBSCertificate (compared through its digest, or byte by byte when the
+    TBS was buffered instead of pre-hashed) and same signature value.
+    Comparing the signature value alone is not enough: it is attacker chosen.
+ */
+static psBool_t x509IsSameCert(const psX509Cert_t *a, const psX509Cert_t *b)
+{
+    if (a->sigAlgorithm != b->sigAlgorithm ||
+        a->signatureLen == 0 ||
+        a->signatureLen != b->signatureLen ||
+        memcmpct(a->signature, b->signature, a->signatureLen) != 0)
+    {
+        return PS_FALSE;
+    }
+#  if defined(USE_ED25519) || defined(USE_ROT_ECC) || defined(USE_ROT_RSA) || (defined(USE_CL_RSA) && defined(USE_PKCS1_PSS))
+    if (a->tbsCertStart != NULL || b->tbsCertStart != NULL)
+    {
+        if (a->tbsCertStart == NULL || b->tbsCertStart == NULL ||
+            a->tbsCertLen != b->tbsCertLen ||
+            memcmpct(a->tbsCertStart, b->tbsCertStart, a->tbsCertLen) != 0)
+        {
+            return PS_FALSE;
+        }
+        return PS_TRUE;
+    }
+#  endif
+    if (a->sigHashLen == 0 ||
+        a->sigHashLen != b->sigHashLen ||
+        memcmpct(a->sigHash, b->sigHash, a->sigHashLen) != 0)
+    {
+        return PS_FALSE;
+    }
+    return PS_TRUE;
+}
+
+/******************************************************************************/
+/*
     Fundamental routine to test whether the supplied issuerCert issued
     the supplied subjectCert.  There are currently two tests that are
     performed here:
@@ -6009,8 +6046,7 @@ int32 psX509AuthenticateCert(psPool_t *pool, psX509Cert_t *subjectCert,
                 Valid CA to load: i2 or root
                 Invalid CA to load: l or i1
              */
-            if (sc->signatureLen == ic->signatureLen
-                && memcmpct(sc->signature, ic->signature, sc->signatureLen) == 0)
+            if (x509IsSameCert(sc, ic))
             {
                 /* Skip some of the signature and issuer checks */
                 goto L_INTERMEDIATE_ROOT;
